@@ -440,8 +440,9 @@ def make_cases(ctx, n):
     while len(cases) < n + len(FIXED) and tries < 5 * n:
         tries += 1
         malformed = rng.random() < 0.08
+        reset = (not malformed) and rng.random() < 0.06
         try:
-            mod, info = gen_program(rng, malformed=malformed)
+            mod, info = gen_program(rng, malformed=malformed, reset=reset)
         except Exception as e:   # the upstream pipeline (not this property) failed on the generated program
             ctx.notes.append(f"generator pipeline failed: {type(e).__name__}: {str(e)[:120]}")
             continue
